@@ -55,23 +55,37 @@ func stripConv(v ssa.Value) ssa.Value {
 // inductionVar analyses a phi as a counted loop variable.
 func inductionVar(phi *ssa.Phi) (ivInfo, bool) {
 	iv := ivInfo{Phi: phi}
-	if len(phi.Edges) != 2 {
+	if len(phi.Edges) < 2 {
 		return iv, false
 	}
+	// one initial value; every other edge (one per `continue`/back edge) carries phi +/- the same constant
 	found := false
-	for i, e := range phi.Edges {
+	for _, e := range phi.Edges {
 		if bo, ok := e.(*ssa.BinOp); ok && (bo.Op == token.ADD || bo.Op == token.SUB) && bo.X == phi {
 			if c, ok := constInt(bo.Y); ok {
-				iv.Step = c
+				step := c
 				if bo.Op == token.SUB {
-					iv.Step = -c
+					step = -c
 				}
-				iv.Init = phi.Edges[1-i]
+				if found && step != iv.Step {
+					return iv, false
+				}
+				iv.Step = step
 				found = true
+				continue
 			}
 		}
+		if iv.Init != nil && iv.Init != e {
+			if c1, ok1 := constInt(iv.Init); ok1 {
+				if c2, ok2 := constInt(e); ok2 && c1 == c2 {
+					continue
+				}
+			}
+			return iv, false
+		}
+		iv.Init = e
 	}
-	if !found {
+	if !found || iv.Init == nil {
 		return iv, false
 	}
 	iv.InitC, iv.InitIsC = constInt(iv.Init)
@@ -281,4 +295,56 @@ func expandGuard(ge guardEdge, res *[]guardEdge, seen map[*ssa.BasicBlock]bool, 
 		}
 		collectGuards(pred, res, seen, depth+1)
 	}
+}
+
+// countedRange returns the inclusive constant range of values a loop index takes: a counted loop
+// variable (`for i := a; i < b; i++`, any of the recognised comparison forms) or the index of a
+// `range` loop over an array / constant-length value (go/ssa: phi from -1, index = phi+1, tested
+// `index < n`). Looks through conversions.
+func countedRange(v ssa.Value) (lo, hi int64, ok bool) {
+	v = stripConv(v)
+	if phi, isPhi := v.(*ssa.Phi); isPhi {
+		if iv, ok := inductionVar(phi); ok {
+			if lo, hi, ok := iv.constRange(); ok {
+				return lo, hi, true
+			}
+		}
+		return 0, 0, false
+	}
+	bo, isBin := v.(*ssa.BinOp)
+	if !isBin || bo.Op != token.ADD {
+		return 0, 0, false
+	}
+	phi, isPhi := bo.X.(*ssa.Phi)
+	one, isC := constInt(bo.Y)
+	if !isPhi || !isC || one != 1 {
+		return 0, 0, false
+	}
+	iv, ok := inductionVar(phi)
+	if !ok || !iv.InitIsC || iv.InitC != -1 || iv.Step != 1 {
+		return 0, 0, false
+	}
+	advances := false
+	for _, e := range phi.Edges {
+		if e == ssa.Value(bo) {
+			advances = true
+		}
+	}
+	if !advances {
+		return 0, 0, false
+	}
+	header := phi.Block()
+	ifi, isIf := header.Instrs[len(header.Instrs)-1].(*ssa.If)
+	if !isIf {
+		return 0, 0, false
+	}
+	cond, isBin := ifi.Cond.(*ssa.BinOp)
+	if !isBin || cond.Op != token.LSS || cond.X != ssa.Value(bo) {
+		return 0, 0, false
+	}
+	n, isC := constInt(cond.Y)
+	if !isC || n <= 0 {
+		return 0, 0, false
+	}
+	return 0, n - 1, true
 }
